@@ -215,7 +215,7 @@ impl Check for Spending {
                         m.installed = Some((*limit, *period));
                         m.hist.clear();
                     }
-                    st.hit(if got { "tx.ok" } else { "tx.refused" });
+                    st.tx("install", got);
                 }
                 Step::SetLimit { limit } => {
                     let got = ac.try_call(&pol, &Symbol::new(e, "set_spending_limit"), &(*limit, rule.clone(), acct.clone()).into_val(e)).is_ok();
@@ -226,7 +226,7 @@ impl Check for Spending {
                     if got {
                         m.installed.as_mut().unwrap().0 = *limit;
                     }
-                    st.hit(if got { "tx.ok" } else { "tx.refused" });
+                    st.tx("set_limit", got);
                 }
                 Step::Uninstall => {
                     let got = ac.try_call(&pol, &Symbol::new(e, "uninstall"), &(rule.clone(), acct.clone()).into_val(e)).is_ok();
@@ -248,7 +248,7 @@ impl Check for Spending {
                         pc.try_enforce(&c, &sg, &rule, &acct).is_ok()
                     };
                     let would = m.would_accept(*amount, *ctx, *signers);
-                    st.hit(if got { "tx.ok" } else { "tx.refused" });
+                    st.tx(if *by_account { "enforce" } else { "enforce_by_stranger" }, got);
                     if !*by_account {
                         if got {
                             return Err(violation("enforce.needs_account", "enforce", i, format!("enforce by a stranger succeeded: {s:?}")));
